@@ -442,7 +442,7 @@ var fgFeatureVersions = map[string]string{
 	"type.Date": "45ab", "type.Time": "45ab", "type.Smallint": "45ab", "type.Tinyint": "45ab", "type.Duration": "5ab",
 	"type.Udt": "345ab", "type.Tuple": "345ab",
 	"target.TYPE": "345ab", "target.FUNCTION": "45ab", "target.AGGREGATE": "45ab", "topology.MOVED_NODE": "3",
-	"writetype.CAS": "5", "writetype.VIEW": "5", "writetype.CDC": "5", "writetimeout.contentions": "5",
+	"writetype.CAS": "345ab", "writetype.VIEW": "45ab", "writetype.CDC": "45ab", "writetimeout.contentions": "5",
 	"failure.num": "4", "failure.reasonmap": "5ab", "failure.code5+": "b", "startup.extra": "5b",
 }
 
